@@ -79,6 +79,17 @@ def dictWrite (s : St) (left : Nat) : Nat × St :=
   let s := { s with hist := ByteArray.empty }
   (n, { s with hist := appendSlice s.inp n s.inPos h, inPos := s.inPos + n, dp := s.dp.advance n })
 
+/-- The bookkeeping of SEQ_CONTROL for an accepted chunk header byte: new `need_properties`/`need_dictionary_reset`,
+    high bits of the uncompressed size, `sequence`/`next_sequence`, and the state reset with the old properties. -/
+def controlApply (s : St) (a : ControlAction) : St :=
+  let s := setL2 s fun l => { l with needProperties := a.needProps', needDictionaryReset := a.needDictReset' }
+  if a.isLzma then
+    let s := setL2 s fun l => { l with uncompressedSize := a.uncompHigh <<< 16, seq := .uncompressed1,
+                                       nextSeq := if a.newProps then .properties else .lzma }
+    if a.stateResetNow then s.resetLzma s.l2.props else s
+  else
+    setL2 s fun l => { l with seq := .compressed0, nextSeq := .copy }
+
 /-- `while (*in_pos < in_size || coder->sequence == SEQ_LZMA) switch (coder->sequence) …` -/
 def lzma2Loop : Nat → St → Ret × St
   | 0, s => (.progError, s)
@@ -92,14 +103,7 @@ def lzma2Loop : Nat → St → Ret × St
       if a.isEnd then (.streamEnd, s)
       else if a.isError then (.dataError, s)
       else
-        let s := setL2 s fun l => { l with needProperties := a.needProps', needDictionaryReset := a.needDictReset' }
-        let s :=
-          if a.isLzma then
-            let s := setL2 s fun l => { l with uncompressedSize := a.uncompHigh <<< 16, seq := .uncompressed1,
-                                               nextSeq := if a.newProps then .properties else .lzma }
-            if a.stateResetNow then s.resetLzma s.l2.props else s
-          else
-            setL2 s fun l => { l with seq := .compressed0, nextSeq := .copy }
+        let s := controlApply s a
         if a.dictReset then
           -- dict_reset(dict); return LZMA_OK;
           (.ok, { s with dp := { s.dp with needReset := true } })
